@@ -39,6 +39,7 @@ type mGen struct {
 	closeCall int64
 	plans     []mPlan
 	refused   bool // some child refuses this REQ
+	prev      []*mGen // earlier REQs of the same session with the same subscription id
 
 	mu        sync.Mutex
 	emits     []mEmit
